@@ -200,6 +200,11 @@ def build_messages(w: wsdlgen.Wsdl, op: wsdlgen.Op, rng):
     responses = []
     if op.output is not None:
         r = etree.Element(q(ENV, "Envelope"), nsmap={"soapenv": ENV})
+        if getattr(op, "out_header", False) and rng.random() < 0.6:
+            # the declared response header is present in some answers and left out in others (and never in a fault)
+            h = w.el(op.header.element)
+            _, hx = element_values(h, rng, alt=True)
+            etree.SubElement(r, q(ENV, "Header")).append(element_xml(w.types_ns, h.name, hx))
         rb = etree.SubElement(r, q(ENV, "Body"))
         if op.style == "document":
             res = w.el(op.output[0].element)
